@@ -58,21 +58,22 @@ def obs_matches(pat, got):
     return pat[1] is None or got[1] in pat[1]
 
 
-def explore(system, acc, root, depth_full, depth_max, max_dev, canon_ret=None, state_cap=None, timeout=10.0):
-    """BFS from one root. Full menus to depth_full; beyond it only histories with <= max_dev deviations."""
+def explore(system, acc, root, plan, canon_ret=None, state_cap=None, timeout=10.0):
+    """BFS from one root. plan[d-1] = (menu kind passed to system.events, max deviations or None) for depth d:
+    full menus at shallow depth, then reduced menus, then reduced menus with a bounded number of deviations."""
     core.reset_world()
     w0 = system.build(root)
     s0 = system.observe(w0)
     seen = {(s0, system.fingerprint(w0)): 0}
     acc.state((root_key(root), s0))
     frontier = [(s0, (), 0)]
-    for depth in range(1, depth_max + 1):
+    for depth in range(1, len(plan) + 1):
         nxt = []
-        full = depth <= depth_full
+        menu, max_dev = plan[depth - 1]
         for st, hist, ndev in frontier:
-            evs = system.events(st, depth, full)
+            evs = system.events(st, depth, menu)
             for ev in evs:
-                if not full and ev.dev and ndev >= max_dev:
+                if max_dev is not None and ev.dev and ndev >= max_dev:
                     continue
                 core.reset_world()
                 world = system.build(root)
@@ -107,7 +108,7 @@ def explore(system, acc, root, depth_full, depth_max, max_dev, canon_ret=None, s
                                   system.snippet(root, hist, ev, accept), [list(map(core._j, a)) for a in accept], [core._j(got), core._j(post)])
                     acc.pruned += 1          # dead end: beyond a disagreement model and implementation differ
                     continue
-                acc.outcome((ev.op, got if len(repr(got)) < 80 else hash(repr(got)), post == st))
+                acc.outcome((ev.op, got if len(repr(got)) < 80 else hash(repr(got)), post if len(repr(post)) < 80 else hash(repr(post))))
                 if state_cap is not None and not state_cap(post):
                     acc.disabled += 1
                     continue
